@@ -81,6 +81,33 @@ CLAIMED = {
              'no optional parameters) with every field symbolic; spec-level round-trip lemmas.',
         note='T3 library models; OPEN capability shapes are an enumerated set (<= 4 capabilities per message): bounded in shape, unbounded in values',
         ref='5 C14'),
+    'C06': dict(
+        text='E/D contracts per attribute (ORIGIN, AS_PATH, NEXT_HOP, MED, LOCAL_PREF, ATOMIC_AGGREGATE, AGGREGATOR, COMMUNITIES incl. every '
+             'well-known name, ORIGINATOR_ID, CLUSTER_LIST, LARGE COMMUNITIES): construct == RFC reference encoding and raises exactly outside '
+             'the value ranges; parse of the reference encoding returns the values; Update.construct == header(withdrawn, attributes, NLRI) for '
+             'six message shapes incl. announce+withdraw; Update.parse of reference encodings returns exactly the parts; prefix lists for every '
+             'length 0..32; per-iteration step contracts make prefix-list and attribute-stream decoding unbounded in length.',
+        note='T3; list shapes enumerated (<= 3 elements; AS_PATH one 130-AS segment), values symbolic; EXTENDED COMMUNITIES are decided under C17; LARGE_COMMUNITIES flag octet is an open known finding',
+        ref='5 C06'),
+    'C08': dict(
+        text='every construct function under contract returns EXACTLY a reference encoding built from structural combinators (header length = size, '
+             'attribute length form chosen by size with the extended-length bit agreeing, prefixes ceil(len/8) octets) or raises; flag constants of '
+             'the attribute classes equal the RFC category table.',
+        note='T3; shapes enumerated; MP families, tunnel encapsulation, PMSI, SR-TE policy and IPv6 flowspec constructors are NOT under contract (listed in the evidence)',
+        ref='5 C08'),
+    'C09': dict(
+        text='decoders against an independent RFC encoder (specs/attrs.py) with each legal variant: extended-length flag on short attributes, '
+             'non-zero trailing prefix bits, attribute order, several AS_PATH segments, AS4_PATH/AS4_AGGREGATOR, 2-/4-octet AS mode, add-path; '
+             'listed malformations (ORIGIN > 2, prefix length > 32, bad segment type, wrong fixed length) yield an error sub-code; step contracts '
+             'on the real loop bodies of parse_prefix_list and parse_attributes hold for ARBITRARY remaining octets.',
+        note='T3; three-valued decoder specs; shapes enumerated, values symbolic; MP families not under contract here',
+        ref='5 C09'),
+    'C15': dict(
+        text='per-iteration step contracts (decoder-while rule) on the real loop bodies: one iteration decodes exactly the first element from its '
+             'own octets and leaves exactly the rest (IPv4 prefix lists with/without add-path; path-attribute stream incl. unknown types, result '
+             'stored under the type code only) => compositionality by list induction; attribute-order independence checked on permuted reference encodings.',
+        note='T5 (list induction); other list kinds on enumerated shapes or termination only (see evidence assumptions)',
+        ref='5 C15'),
 }
 checks = []
 for pid, c in CLAIMED.items():
